@@ -38,6 +38,8 @@ func main() {
 		exit(engine.WorkerMain(os.Args[2:]))
 	case "runcase":
 		exit(engine.RunCaseMain(os.Args[2:]))
+	case "count":
+		exit(engine.CountMain(os.Args[2], os.Args[3]))
 	case "rundesc":
 		exit(engine.RunDescMain(os.Args[2:]))
 	case "eval":
